@@ -138,8 +138,9 @@ def mcxHalf2 (cw ts : List Nat) (cs : Option (List Bool)) (ao inv : Bool) : SG K
 def secondaryReal (o : ROps K) (u : CMat K) : Bool := o.isZero u.b.im && o.isZero u.c.im
 def mainReal (o : ROps K) (u : CMat K) : Bool := o.isZero u.a.im && o.isZero u.d.im
 
-/-- `Ldmcsu._get_x_z`: `(x, z)`; `x` is real in both branches (first branch: its imaginary part
-passed the `isclose(·, 0.0)` test, i.e. is exactly zero). -/
+/-- `Ldmcsu._get_x_z`: `(x, z)`; `x` is real in both branches (first branch: `x_value = su2[0, 1].real`; the
+imaginary part passed the `isclose(·, 0.0, abs_tol=1e-12)` test, which the exact reading `isZero` takes as `= 0` –
+the driver snaps imaginary parts up to 1e-12 to 0 before calling the model, see `Drivers/C04.lean`). -/
 def getXZ (o : ROps K) (u : CMat K) : K × Cx K :=
   if secondaryReal o u then (u.b.re, u.d)
   else (o.neg u.b.re, ⟨u.d.re, o.sub u.d.im u.b.im⟩)
@@ -222,7 +223,11 @@ def ldmcsu (o : ROps K) (u : CMat K) (eig : Cx K × Cx K × CMat K) (cw : List N
     let mr := mainReal o u
     let sr := secondaryReal o u
     if !mr && !sr then
-      let xz := getXZ o eig.2.2
+      -- `x_vecs = -eig_vecs[0, 1].real`, `z_vecs = eig_vecs[1, 1] - eig_vecs[0, 1].imag * 1.0j`: the eigenvector
+      -- matrix has a real main diagonal, so the code reads it with that formula of `_get_x_z` in every case (also when
+      -- the eigenvectors are real: rotations about an axis in the XZ plane).
+      let v := eig.2.2
+      let xz : K × Cx K := (o.neg v.b.re, ⟨v.d.re, o.sub v.d.im v.b.im⟩)
       let d : CMat K := ⟨eig.1, Cx.zero o, Cx.zero o, eig.2.1⟩
       match halfLinearDepthMcv o xz.1 xz.2 cw t cs true, linearDepthMcv o d cw t cs true,
             halfLinearDepthMcv o xz.1 xz.2 cw t cs false with
